@@ -51,6 +51,9 @@ SCOPE_CODE = {"D": 1.0, "B": 2.0, "L": 3.0, "G": 4.0, "X": 5.0}
 N_FRAMES = 4
 
 
+SPECIAL_VALUES = {"none": None, "zero": 0, "empty": "", "false": False}
+
+
 def decoy_tag(which, j):
     return f"{which}@{j}"
 
@@ -110,6 +113,7 @@ class World:
         self.calls = []     # tags of the test functions that were called
         self.call_args = []  # their positional arguments
         self.by_value = {}  # (type name, value) -> tag, for ints/strings of library frames
+        self.special = None  # (value, tag): the one scope that binds the name to None / 0 / "" / False
 
     def remember(self, obj, tag):
         self.by_id[id(obj)] = tag
@@ -143,6 +147,9 @@ class World:
                                                           "a": [[path[0], subj]]}
 
     def classify(self, v):
+        if self.special is not None and type(v) is type(self.special[0]) and (
+                v is self.special[0] or v == self.special[0]):
+            return self.special[1]
         if isinstance(v, (np.ndarray, pd.Series)):
             try:
                 return CODE_TAG.get(float(np.asarray(v).ravel()[0]), "unknown:array")
@@ -278,8 +285,15 @@ def build(desc):
         head = name.split(".")[0]
         path = name.split(".")[1:]
 
+    special = desc.get("special")      # {"scope": tag, "value": "none"|"zero"|"empty"|"false"}
+
     def value(tag):
         """-> (python object, model json) a scope binds the (head of the) name to"""
+        if special and special["scope"] == tag and role == "arg":
+            # a legitimate binding whose value is None / falsy: it is still a binding
+            v = SPECIAL_VALUES[special["value"]]
+            w.special = (v, tag)
+            return v, {"t": tag}
         if role == "arg" and not head_object:
             return w.vec(tag), {"t": tag}
         miss = missing["at"] if missing and missing["scope"] == tag else None
@@ -484,7 +498,7 @@ def run_impl(cfg, idx=0):
             out["ok"] = w.calls[-1] if w.calls else "unknown:no-test-function-called"
             out["n_calls"] = len(w.calls)
         # cross-check with the design matrix where the term's column is the winner's vector
-        if cfg["real"] is None and cfg["desc"]["kind"] != "negative_env" and cfg["form"] in ("plain", "kw", "op", "nested", "bq", "bq_space",
+        if cfg["real"] is None and cfg["desc"]["kind"] not in ("negative_env", "special_value") and cfg["form"] in ("plain", "kw", "op", "nested", "bq", "bq_space",
                                                    "dotted", "dotted2", "dotted3", "dotted4"):
             terms = [t for t in dm.common.terms if t != "Intercept"]
             col = np.asarray(dm.common[terms[0]]).ravel()
@@ -596,6 +610,15 @@ def enumerate_cases(tier, builtins_keys):
             nested2 = [("vld", [("dict", None), ("vld", [])]), ("dict", "E5"), ("dict", "E6")]
             cases.append({"kind": "env_instance_nested", "role": role, "form": form, "subset": s,
                           "k": 0, "frames": "func", "decoys": True, "env": {"environment": nested2}})
+    # (8) a scope binds the name to None / 0 / "" / False: it is a binding like any other
+    for val in SPECIAL_VALUES:
+        for k in (0, 1, 2):
+            for s in subsets("LGX"):
+                for at in s:
+                    for fk in ("func", "exec"):
+                        cases.append({"kind": "special_value", "role": "arg", "form": "plain",
+                                      "subset": s, "k": k, "frames": fk, "decoys": k == 2,
+                                      "special": {"scope": at, "value": val}})
     # (7) negative env (outside the statement): frames of design_matrices / capture themselves
     for e in (-1, -2, -7):
         for nm in ("formula", "na_action", "reference", "depth", "zz"):
